@@ -153,7 +153,8 @@ def kinds(quick):
                        "al subq 1 s out", "al btw %s %s %s 0 out" % (ID, INT, INT), "al like %s %s 0 0 own out" % (ID, STR), "al ast - 0 [ ] 0 [ ] out", "al nil out", "al op 1 out",
                        "with w subq 1 s 0", "with w subq 1 s 1", "with - subq 1 s 1", "with - subq 1 - 1", "with w subq 0 - 0",
                        "al %s -" % ID, "al %s -" % INT, "al %s -" % ll("t", [ID]), "al bin and 0 %s %s -" % (ID, ID), "al un 0 %s -" % ID, "al tern %s %s %s -" % (ID, ID, ID),
-                       "al param p 1 -", "al param - 0 -"]), [])
+                       "al param p 1 -", "al param - 0 -",
+                       "al like %s %s 0 0 own -" % (ID, STR), "al like %s %s 1 1 - -" % (ID, STR), "al btw %s %s %s 0 -" % (ID, INT, INT), "al btw %s %s %s 1 -" % (ID, INT, INT)]), [])
     return K
 
 
